@@ -711,6 +711,18 @@ def check_index_width(ctx: Ctx, rule: str):
                 if name in _NARROW_INTS:
                     ctx.bad(rule, f, x, f"{qn} carries unit positions in `{norm(x)}`: positions from 128 (256) on wrap around, so a candidate names other units than the ones its "
                             f"cost was computed from (the pinned 16-bit type holds 32767 units per annotator)", key=f"index-width:{qn}")
+    # the costs travel next to the positions: single precision is what the property allows for ("up to single-precision rounding")
+    for qn in (CAND, PAIRK, "extend_right_disorders"):
+        f = M.functions.get(qn)
+        if f is None:
+            continue
+        for top in list(getattr(f.node, "decorator_list", [])) + list(f.node.body):
+            for x in ast.walk(top):
+                nm = x.attr if isinstance(x, ast.Attribute) and norm(x.value).split(".")[0] in ("np", "numpy", "nb", "numba") else \
+                    (x.value if isinstance(x, ast.Constant) and isinstance(x.value, str) else None)
+                if nm in ("float16", "half", "float8"):
+                    ctx.bad(rule, f, x, f"{qn} keeps costs in `{norm(x)}` (11 significant bits): disorders are only defined up to single-precision rounding, and "
+                            f"the pruning threshold is compared against such a value", key=f"cost-width:{qn}")
     ctx.check(seen >= 4, rule, None, None, f"{seen} integer types on the path of the unit positions (odometer, candidate buffer, growth, build_A), none narrower than 16 bits",
               bad_detail=f"only {seen} integer types found on the path of the unit positions (anchor vanished)", construct="index width", key="index-width")
 
